@@ -5,6 +5,7 @@ from fractions import Fraction
 import numpy as np
 
 from .. import core
+from ..translate import utilsfn as tr_utilsfn
 
 ID = "C14"
 PROPS_FILE = "C14"
@@ -12,8 +13,17 @@ RULE = ("correspondence: integer bookkeeping steppers (f u = a*u+b, f u x = a*u+
         "exponax.rollout/repeat/stack_sub_trajectories and through the extracted Gallina model on the same (n, flags, aux, window) "
         "inputs, compared exactly; witness: the implementation against a naive Python loop, plus RepeatedStepper/ForcedStepper "
         "against manual stepping. A case is non-trivial when n>=1 (or the rejection path is exercised); distinct by input hash.")
+TRUSTED_EXTRA = ["harness/translate/utilsfn.py: statement-by-statement translation of rollout / repeat / RepeatedStepper / ForcedStepper (contracts: jax.lax.scan = Rollout.scan with the "
+                 "length check, tree_map of the repeat / prepend lambdas = repeat x n / init :: history)"]
 ASSUMPTIONS = ["jax.lax.scan = fold with stacked outputs; tree_map leafwise; dynamic_slice_in_dim clamps the start index",
                "int64 bookkeeping values stay far below overflow (|a|<=3, n<=8)"]
+
+
+def translate(ctx):
+    """Gen/UtilsGen.v: rollout, repeat and the wrapper steppers re-translated from the source (tied to Utils/Rollout.v by
+    Tie/UtilsTie.v and the theorems C14_code_utilities_are_model_utilities / C14_code_wrappers_are_model_wrappers); on failure the
+    file is replaced by a stub, so that the proof cannot use a stale text"""
+    tr_utilsfn.run()
 
 
 def _jnp():
